@@ -121,7 +121,7 @@ def run(t, budget=1.0):
                 pc.fail(sig, entry, {"cmd": line, "config": cfg, "expected_buffer": exp_buf, "expected_rets": sc.rets, "actual": resp},
                         "[%s] message %s target path %s numInGroup=%s: %s" % (cfg, L.name, list(path), nval, what))
 
-    pc.run_hypothesis(body, 2500 if t == "quick" else 30000)
+    pc.run_hypothesis(body, 5000 if t == "quick" else 60000)
     return pc.finish()
 
 
